@@ -156,6 +156,9 @@ def gen_overrides(rng, D, for_run):
         o[nm] = SAFE[nm](rng, D)
     for nm in rng.sample(UNUSED, rng.randrange(0, 4)):
         o[nm] = rng.choice([0, 1, 7, 0.5, True, "x", None, [1, 2]])
+    if rng.random() < 0.3:
+        # tol_fun feeds dependent defaults (tol_noise, hedge_beta)
+        o["tol_fun"] = rng.choice([1e-1, 1e-2, 1e-4, 5e-3, 1e-6])
     if "max_fun_evals" not in o and for_run:
         o["max_fun_evals"] = rng.randrange(12, 40)
     if rng.random() < 0.2:
@@ -166,7 +169,12 @@ def gen_overrides(rng, D, for_run):
 def gen_sequence(seed, i):
     rng = stream(seed, f"c20/{i}")
     n_inst = rng.randrange(1, 5)
-    insts = [dict(D=rng.randrange(1, 7)) for _ in range(n_inst)]
+    if rng.random() < 0.5:
+        # instances sharing a dimension: leaks keyed on D (caches) need them
+        pool_D = [rng.randrange(1, 7)] * 2 + [rng.randrange(1, 7)]
+        insts = [dict(D=rng.choice(pool_D)) for _ in range(n_inst)]
+    else:
+        insts = [dict(D=rng.randrange(1, 7)) for _ in range(n_inst)]
     with_runs = rng.random() < 0.12
     ops = []
     constructed = set()
@@ -335,7 +343,9 @@ def run_batch(arg):
     out = dict(n=0, ops=0, problems=[], shapes=set(), overridden=set(), samples=[], runs=0, nested=0, bad=0)
     for i in range(lo, hi):
         seq = gen_sequence(seed, i)
-        probs = execute(seq)
+        # every sequence starts from a pristine process (a leak carried over from an earlier
+        # sequence would make the replay file of this one not self-contained)
+        probs = pool.run_isolated(execute, seq)
         out["n"] += 1
         out["ops"] += len(seq["ops"])
         out["shapes"].add(tuple(o["op"] + (":nested" if o.get("nested") else "") for o in seq["ops"]))
@@ -356,7 +366,7 @@ def run_batch(arg):
 def shrink(seq, cls):
     def bad(s):
         try:
-            return any(p[0] == cls for p in execute(s))
+            return any(p[0] == cls for p in pool.run_isolated(execute, s))
         except Exception:
             return False
     cur = copy.deepcopy(seq)
@@ -391,7 +401,7 @@ def shrink(seq, cls):
 
 
 def replay(prop, cls, case):
-    probs = execute(case)
+    probs = pool.run_isolated(execute, case)
     return any(p[0] == cls for p in probs), dict(problems=probs[:6])
 
 
